@@ -203,6 +203,33 @@ pub uninterp spec fn import_bound_name(n: &SyntaxNode) -> Seq<char>;
 pub uninterp spec fn import_original_name(n: &SyntaxNode) -> Seq<char>;
 pub open spec fn is_import_item(n: &SyntaxNode) -> bool { n.kind_s() == SyntaxKind::ImportItemPath || n.kind_s() == SyntaxKind::RenamedImportItem }
 /// C19: the names bound by the items are pairwise distinct
+/// C19: the node is a comment or has a comment anywhere below it (recursion over the opaque tree: uninterpreted, defined by the axiom)
+pub uninterp spec fn contains_comment_s(n: &SyntaxNode) -> bool;
+#[verifier::external_body]
+pub proof fn axiom_contains_comment(n: &SyntaxNode)
+    ensures contains_comment_s(n) == (is_comment_kind(n.kind_s()) || (exists|j: int| 0 <= j < n.children_s().len() && contains_comment_s(#[trigger] n.children_s()[j]))),
+{}
+/// the node is an item of this import statement: a direct child (parenthesised list) or a child of its ImportItems node
+pub open spec fn import_item_of(import: &SyntaxNode, n: &SyntaxNode) -> bool {
+    is_child_of(n, import) || (exists|k: int| 0 <= k < import.children_s().len() && (#[trigger] import.children_s()[k]).kind_s() == SyntaxKind::ImportItems && is_child_of(n, import.children_s()[k]))
+}
+pub proof fn lemma_item_comment(import: &SyntaxNode, n: &SyntaxNode)
+    requires import_item_of(import, n), is_comment_kind(n.kind_s()),
+    ensures contains_comment_s(import),
+{
+    axiom_contains_comment(n); axiom_contains_comment(import);
+    if is_child_of(n, import) {
+        let j = choose|j: int| 0 <= j < import.children_s().len() && #[trigger] import.children_s()[j] == n;
+        assert(contains_comment_s(import.children_s()[j]));
+    } else {
+        let k = choose|k: int| 0 <= k < import.children_s().len() && (#[trigger] import.children_s()[k]).kind_s() == SyntaxKind::ImportItems && is_child_of(n, import.children_s()[k]);
+        let c = import.children_s()[k];
+        axiom_contains_comment(c);
+        let j = choose|j: int| 0 <= j < c.children_s().len() && #[trigger] c.children_s()[j] == n;
+        assert(contains_comment_s(c.children_s()[j]));
+        assert(contains_comment_s(c));
+    }
+}
 pub open spec fn import_names_distinct(nodes: Seq<&SyntaxNode>) -> bool {
     forall|i: int, j: int| 0 <= i < j < nodes.len() && is_import_item(nodes[i]) && is_import_item(nodes[j]) ==> import_bound_name(nodes[i]) != import_bound_name(nodes[j])
 }
